@@ -23,7 +23,33 @@ fn usage() -> i32 {
     2
 }
 
+/// Re-execute this binary with the getrandom shim preloaded (once; see detrand.c)
+fn preload_detrand() {
+    use std::os::unix::process::CommandExt;
+    let so = "/verif/target/detrand.so";
+    if std::env::var_os("VERIF_DETRAND").is_some() || !std::path::Path::new(so).exists() {
+        return;
+    }
+    let exe = match std::env::current_exe() {
+        Ok(e) => e,
+        Err(_) => return,
+    };
+    let mut preload = so.to_string();
+    if let Ok(old) = std::env::var("LD_PRELOAD") {
+        if !old.is_empty() {
+            preload = format!("{}:{}", so, old);
+        }
+    }
+    let err = std::process::Command::new(exe)
+        .args(std::env::args_os().skip(1))
+        .env("LD_PRELOAD", preload)
+        .env("VERIF_DETRAND", "1")
+        .exec();
+    eprintln!("cannot re-execute with the getrandom shim ({}); continuing without it", err);
+}
+
 fn main() {
+    preload_detrand();
     sim::install_panic_hook();
     sim::install_logger();
     let args: Vec<String> = std::env::args().skip(1).collect();
@@ -45,7 +71,7 @@ fn main() {
             world::KEEP_TRACE.store(true, std::sync::atomic::Ordering::Relaxed);
             for a in &args[2..] {
                 let idx: u64 = a.parse().expect("index");
-                let o = scn.execute(&scn.generate(seed, idx, scenario::Tier::Quick));
+                let o = sim::execute_isolated(scn, &scn.generate(seed, idx, scenario::Tier::Quick));
                 println!("index {} hash {:016x}", idx, o.trace_hash);
                 for e in world::take_kept_trace() {
                     println!("   {} {:?} {} {} {}", e.t_us, e.kind, e.obj, e.a, e.b);
